@@ -298,11 +298,14 @@ def run_history(mname, hist):
 # ---- (C) ----------------------------------------------------------------------------------------------------------
 
 FAIL_CONFIGS = [("cvxpy", "CLARABEL"), ("cvxpy", None), ("cvxpy", "SCS"), ("mosek", None)]
+# the same with a solver stopped early (its answer is then `unbounded_inaccurate` / `infeasible_inaccurate`) and with loud solves
+FAIL_CONFIGS_MORE = [("cvxpy", "SCS", {"max_iters": 20}, 0), ("cvxpy", "SCS", {"max_iters": 50}, 0), ("cvxpy", "CLARABEL", None, 1),
+                     ("cvxpy", "CLARABEL", None, 2), ("mosek", None, None, 1)]
 
 
-def run_failing(spec, backend, solver):
+def run_failing(spec, backend, solver, extra=None, verbose=0):
     ctx = models.build(spec)
-    r = solving.solve(ctx.pep, backend=backend, solver=solver)
+    r = solving.solve(ctx.pep, backend=backend, solver=solver, extra=extra, verbose=verbose)
     kind = "infeasible" if "contradiction" in spec.get("extras", []) else "unbounded"
     if r["exc"] is not None:
         n = type(r["exc"]).__name__
@@ -462,6 +465,10 @@ def run_shard(shard, tier):
             for be, solver in FAIL_CONFIGS:
                 p, o = run_failing(spec, be, solver)
                 add(p, o, dict(kind="failing", spec=spec, backend=be, solver=solver))
+            if models.failing_specs(tier).index(spec) % 4 == 0:
+                for be, solver, extra, vb in FAIL_CONFIGS_MORE:
+                    p, o = run_failing(spec, be, solver, extra, vb)
+                    add(p, o, dict(kind="failing", spec=spec, backend=be, solver=solver, extra=extra, verbose=vb))
         samples.append(dict(kind="failing", spec=models.failing_specs(tier)[shard["lo"]], backend="cvxpy", solver="CLARABEL"))
     else:
         first = tuple(shard["first"])
@@ -488,7 +495,7 @@ def replay(case):
     elif k == "invalid":
         p, _ = run_invalid(tuple(case["case"]), case.get("spec"), case.get("solver", "CLARABEL"))
     elif k == "failing":
-        p, _ = run_failing(case["spec"], case["backend"], case["solver"])
+        p, _ = run_failing(case["spec"], case["backend"], case["solver"], case.get("extra"), case.get("verbose", 0))
     else:
         p, _, _ = run_history(case["model"], tuple(case["history"]))
     return [dict(key=a, msg=b, case=case) for a, b in (p or [])]
